@@ -221,6 +221,15 @@ func (p *Program) VerifyFunction(id string) (res *FuncResult) {
 			e.decEntry = e.define("dec.entry", d)
 		}
 	}
+	if fc != nil && fc.AllocBound != nil {
+		env := e.newEnv(nil, st)
+		env.bind = bind
+		if t, err := env.evalTerm(fc.AllocBound.E); err == nil {
+			e.allocExtra = t
+		} else {
+			e.contractError(fc.AllocBound, err)
+		}
+	}
 	// vacuity guard: the preconditions together must be satisfiable
 	cover := &Obligation{ID: id + "#cover.pre", Func: id, Kind: "cover", Desc: "preconditions are satisfiable", Reach: True, Cond: True,
 		NAssume: len(e.assumes), Expect: "sat"}
@@ -328,6 +337,11 @@ func (p *Program) VerifyFunction(id string) (res *FuncResult) {
 	}
 	// vacuity guard: every return that the symbolic execution reaches must be reachable in the logic too
 	for k, x := range exits {
+		if p.Contracts.Dead[fmt.Sprintf("%s return%d", id, k+1)] {
+			// declared dead code: instead of a cover query, prove the return is unreachable
+			e.oblige("dead", fmt.Sprintf("dead.return%d", k+1), "this return is declared unreachable (dead code) in the contract", x.reach, False, nil)
+			continue
+		}
 		c := &Obligation{ID: fmt.Sprintf("%s#cover.return%d", id, k+1), Func: id, Kind: "cover", Desc: "return is reachable (assumptions along the path are consistent)",
 			Reach: x.reach, Cond: True, NAssume: len(e.assumes), Expect: "sat", Pos: e.posString(x.instr.Pos())}
 		e.obls = append(e.obls, c)
@@ -736,6 +750,7 @@ func (e *Engine) lockCheckMap(st *State, reach Term, m ssa.Value, write bool) {}
 // ---------------------------------------------------------------- discharge
 
 type SolveOptions struct {
+	Known   map[string]bool
 	Timeout time.Duration
 	Both    bool
 	OutDir  string
@@ -771,6 +786,13 @@ func SolveAll(results []*FuncResult, opt SolveOptions) {
 				name := sanitizeFile(j.o.ID)
 				var r SolveResult
 				var all []SolveResult
+				if opt.Known != nil && opt.Known[j.o.ID] {
+					// an obligation recorded as a known finding: one short round is enough to see whether it still fails
+					r, all = portfolioWith(solvers, q, opt.OutDir, name, 5*time.Second, false, false)
+					j.o.Result = r
+					j.o.All = all
+					continue
+				}
 				if j.o.Expect == "sat" && !opt.Both {
 					// quick tier: cover queries on the quantifier-free part only
 					r = SolveResult{Status: "unknown"}
@@ -827,3 +849,4 @@ func tmpOutDir() string {
 }
 
 var _ = token.NoPos
+
